@@ -73,6 +73,7 @@ class Contract:
         self.defines_on_return = kw.get("defines_on_return")   # opaque predicate (expr) defined as "this pure function returns normally"
         self.exists = kw.get("exists", {})      # name -> {"len": expr, "witness": expr}: existentially quantified bytes in `returns`
         self.emits = kw.get("emits", {})        # ghost events appended at call sites: name -> expr
+        self.use = kw.get("use", {})            # callee qualname -> name of the contract variant to use at call sites of this function
         self.scenario = kw.get("scenario", {})  # callee qualname -> clause assumed on its normal return (hypothesis about the environment)
         self._exprs = {}
 
@@ -159,6 +160,8 @@ class ContractSet:
         cur = self.contracts.get(I.verifying) if I.verifying else None
         if cur is not None and qualname in cur.calls_inline:
             return None
+        if cur is not None and qualname in cur.use:
+            return self.contracts[cur.use[qualname]]
         return c
 
     def opaque_call(self, I, fv, args):
@@ -1080,6 +1083,10 @@ class ContractSet:
                 if isinstance(nn, VUnion):
                     raise Unsupported("range bound")
                 return {"n": nn, "elem": lambda i: ops._arith(I, "+", lo, i)}
+            if o.kind == "ext" and o.meta.get("tag") == "json":
+                from . import libmodels
+                jr = it
+                return {"n": libmodels.json_len(I, jr), "elem": lambda i: libmodels.json_child(I, jr, i)}
             if o.kind == "symset":
                 from . import symlist
                 it = symlist.items_view(I, it, o)
